@@ -20,10 +20,32 @@ pub fn install_panic_hook() {
         } else {
             "<non-string panic>".to_string()
         };
-        let loc = info
+        let mut loc = info
             .location()
             .map(|l| format!("{}:{}", l.file(), l.line()))
             .unwrap_or_default();
+        // a panic raised inside libcore (e.g. u32::pow) is attributed to the first frame of the
+        // library under test (needs line tables: profile.release.debug = "line-tables-only")
+        if loc.starts_with("/rustc/") || loc.contains("/library/core/") {
+            let bt = std::backtrace::Backtrace::force_capture().to_string();
+            let mut prev_fn = String::new();
+            for line in bt.lines() {
+                let t = line.trim();
+                if let Some(rest) = t.strip_prefix("at ") {
+                    // frames of the library under test: absolute path that is neither the rust
+                    // toolchain, a registry crate nor the harness itself
+                    if rest.starts_with('/') && !rest.starts_with("/rustc/") && !rest.contains("/.cargo/") && !rest.contains("/harness/src/") && !rest.contains("/.rustup/") {
+                        let mut parts = rest.rsplitn(2, ':'); // strip the column
+                        let _col = parts.next();
+                        let fl = parts.next().unwrap_or(rest);
+                        loc = format!("{} (via libcore, in {})", fl, prev_fn);
+                        break;
+                    }
+                } else {
+                    prev_fn = t.splitn(2, ": ").nth(1).unwrap_or(t).to_string();
+                }
+            }
+        }
         LAST_PANIC.with(|p| *p.borrow_mut() = Some((msg, loc)));
     }));
 }
